@@ -163,7 +163,62 @@ func PurityProbes() []Probe {
 		p2.Failed = aliased || first != second || Fingerprint(s2) != fp || valStr(reflectValue(dflt2), 0) != valStr(reflectValue(mk2()), 0)
 		ps = append(ps, p2)
 	}
+	// every way a struct element can hold memory: a struct by value that holds a slice, an array of slices, a map,
+	// an interface holding a slice, a pointer inside an array.  Whatever the shape, the validated value shares
+	// nothing with the schema's default: the caller writes through its result, the next execution starts from the
+	// same default.  (The item schema names one field only; the others are the caller's own.)
+	{
+		mk3 := func() []probeWide {
+			return []probeWide{{Name: "w", In: probeInner{Tags: []string{"t1", "t2"}}, Groups: [2][]string{{"g"}, {"h"}},
+				Meta: map[string]string{"k": "v"}, Any: []string{"x"}, Ptrs: [1]*probeInner{{Tags: []string{"p"}}}}}
+		}
+		dflt3 := mk3()
+		s3 := z.Slice(z.Struct(z.Schema{"name": z.String()})).Default(dflt3)
+		fp := Fingerprint(s3)
+		var first, second string
+		for round := 0; round < 2; round++ {
+			var d []probeWide
+			s3.Validate(&d)
+			r := valStr(reflectValue(d), 0)
+			if len(d) == 1 {
+				if len(d[0].In.Tags) > 0 {
+					d[0].In.Tags[0] = "scribbled"
+				}
+				if len(d[0].Groups[0]) > 0 {
+					d[0].Groups[0][0] = "scribbled"
+				}
+				if d[0].Meta != nil {
+					d[0].Meta["k"] = "scribbled"
+				}
+				if xs, ok := d[0].Any.([]string); ok && len(xs) > 0 {
+					xs[0] = "scribbled"
+				}
+				if d[0].Ptrs[0] != nil && len(d[0].Ptrs[0].Tags) > 0 {
+					d[0].Ptrs[0].Tags[0] = "scribbled"
+				}
+			}
+			if round == 0 {
+				first = r
+			} else {
+				second = r
+			}
+		}
+		p3 := Probe{Tag: "dest_aliases_schema", Detail: fmt.Sprintf("Slice(Struct{name}).Default([]Item{{Name, In: struct by value holding a slice, Groups: [2][]string, Meta: map, Any: interface holding a slice, Ptrs: [1]*Inner}}): first Validate of a nil slice gave %s; after the caller wrote through that result the next gave %s; the caller's default is now %s",
+			first, second, valStr(reflectValue(dflt3), 0))}
+		p3.Failed = first != second || Fingerprint(s3) != fp || valStr(reflectValue(dflt3), 0) != valStr(reflectValue(mk3()), 0)
+		ps = append(ps, p3)
+	}
 	return ps
+}
+
+type probeInner struct{ Tags []string }
+type probeWide struct {
+	Name   string
+	In     probeInner
+	Groups [2][]string
+	Meta   map[string]string
+	Any    any
+	Ptrs   [1]*probeInner
 }
 
 func reflectValue(x any) reflect.Value { return reflect.ValueOf(x) }
